@@ -1,0 +1,1057 @@
+//! Verification hooks, compiled only with the cargo feature `verif-hooks`.
+//!
+//! Nothing in here changes the behaviour of the library unless a *simulation
+//! context* ([`SimCtx`]) has been installed for the thread that runs the code:
+//! every hook first looks at a thread-local and falls back to the original
+//! behaviour when it is empty.
+//!
+//! With a context, the daemon thread
+//! - reads its time from a virtual clock ([`virtual_now`]),
+//! - sends to and receives from in-memory queues instead of UDP sockets
+//!   ([`PktInfoUdpSocket`]),
+//! - sees a scripted interface table ([`if_addrs_shim`]),
+//! - takes its probe jitter from a scripted queue ([`fastrand_shim`]),
+//! - parks before every `poll` until the harness lets it run one more
+//!   iteration ([`gate`]).
+//!
+//! The [`codec`] sub-module is a plain-data facade over the (crate private)
+//! wire codec so that an external harness can feed it and look at its results.
+
+use std::{
+    cell::{Cell, RefCell},
+    collections::VecDeque,
+    io,
+    net::{IpAddr, Ipv4Addr, Ipv6Addr, SocketAddr},
+    sync::{
+        atomic::{AtomicU64, Ordering},
+        Arc, Condvar, Mutex, MutexGuard,
+    },
+    time::Duration,
+};
+
+pub use if_addrs;
+use socket2::{Domain, SockAddr};
+pub use socket_pktinfo::PktInfo;
+
+/// One datagram the daemon handed to its socket.
+#[derive(Clone, Debug)]
+pub struct Egress {
+    /// Virtual time of the send.
+    pub t: u64,
+    /// Loop iteration (gate count) in which it was sent. 0 = before the first gate.
+    pub iter: u64,
+    /// True if sent on the IPv4 socket.
+    pub v4: bool,
+    pub dest: SocketAddr,
+    /// The socket's IP_MULTICAST_IF at the time of sending.
+    pub mcast_if_v4: Option<Ipv4Addr>,
+    /// The socket's IPV6_MULTICAST_IF at the time of sending.
+    pub mcast_if_v6: Option<u32>,
+    pub data: Vec<u8>,
+}
+
+/// One datagram queued for the daemon to receive.
+#[derive(Clone, Debug)]
+pub struct Ingress {
+    pub data: Vec<u8>,
+    pub if_index: u32,
+    pub src: SocketAddr,
+    pub dst: IpAddr,
+}
+
+/// How the daemon thread ended.
+#[derive(Clone, Debug)]
+pub struct Ended {
+    pub panicked: bool,
+    pub iter: u64,
+}
+
+/// Multicast membership change requested by the daemon.
+#[derive(Clone, Debug, PartialEq, Eq)]
+pub enum Membership {
+    JoinV4(Ipv4Addr),
+    LeaveV4(Ipv4Addr),
+    JoinV6(u32),
+    LeaveV6(u32),
+}
+
+/// State shared between the harness and one simulated daemon.
+pub struct SimInner {
+    // ----- gate -----
+    /// The daemon is waiting at the gate.
+    pub parked: bool,
+    /// Iterations the daemon may still run.
+    pub permits: u64,
+    /// Number of times the daemon arrived at the gate.
+    pub iter: u64,
+    /// `now` as seen by the daemon when it arrived at the gate.
+    pub gate_now: u64,
+    /// The earliest timer, i.e. the wake-up the daemon asks for.
+    pub wakeup: Option<u64>,
+    /// 0: no snapshot, 1: summary, 2: with every cached record.
+    pub snapshot_level: u8,
+    pub snapshot: Option<Snapshot>,
+    /// Set when the daemon thread is gone.
+    pub ended: Option<Ended>,
+    /// Makes the gate unwind the daemon thread (world torn down).
+    pub kill: bool,
+
+    // ----- world -----
+    pub ifaces: Vec<if_addrs::Interface>,
+    pub egress: Vec<Egress>,
+    pub ingress_v4: VecDeque<Ingress>,
+    pub ingress_v6: VecDeque<Ingress>,
+    /// Datagrams taken by `recv` so far.
+    pub consumed: u64,
+    /// Forced results for the probe start jitter.
+    pub jitter: VecDeque<u64>,
+    /// Jitter values actually handed out: (time, value).
+    pub jitter_log: Vec<(u64, u64)>,
+    pub loop_v4: bool,
+    pub loop_v6: bool,
+    pub membership: Vec<Membership>,
+    /// `set_multicast_if_v4` fails with `AddrNotAvailable` for these.
+    pub bad_mcast_if_v4: Vec<Ipv4Addr>,
+    /// `set_multicast_if_v6` fails with `AddrNotAvailable` for these.
+    pub bad_mcast_if_v6: Vec<u32>,
+    /// Creating the IPv4 / IPv6 socket fails.
+    pub no_v4_socket: bool,
+    pub no_v6_socket: bool,
+    /// `read_name` loop steps allowed per loop iteration before the thread unwinds.
+    pub step_budget: u64,
+}
+
+pub struct SimCtx {
+    pub clock: Arc<AtomicU64>,
+    pub seed: u64,
+    pub inner: Mutex<SimInner>,
+    pub cv: Condvar,
+}
+
+impl SimCtx {
+    pub fn new(clock: Arc<AtomicU64>, seed: u64, ifaces: Vec<if_addrs::Interface>) -> Arc<Self> {
+        Arc::new(Self {
+            clock,
+            seed,
+            inner: Mutex::new(SimInner {
+                parked: false,
+                permits: 0,
+                iter: 0,
+                gate_now: 0,
+                wakeup: None,
+                snapshot_level: 0,
+                snapshot: None,
+                ended: None,
+                kill: false,
+                ifaces,
+                egress: Vec::new(),
+                ingress_v4: VecDeque::new(),
+                ingress_v6: VecDeque::new(),
+                consumed: 0,
+                jitter: VecDeque::new(),
+                jitter_log: Vec::new(),
+                loop_v4: true,
+                loop_v6: true,
+                membership: Vec::new(),
+                bad_mcast_if_v4: Vec::new(),
+                bad_mcast_if_v6: Vec::new(),
+                no_v4_socket: false,
+                no_v6_socket: false,
+                step_budget: 50_000_000,
+            }),
+            cv: Condvar::new(),
+        })
+    }
+
+    pub fn lock(&self) -> MutexGuard<'_, SimInner> {
+        match self.inner.lock() {
+            Ok(g) => g,
+            Err(p) => p.into_inner(),
+        }
+    }
+
+    /// Lets the daemon run `n` more iterations.
+    pub fn release(&self, n: u64) {
+        let mut g = self.lock();
+        g.permits += n;
+        g.parked = false;
+        drop(g);
+        self.cv.notify_all();
+    }
+
+    /// Waits until the daemon is parked with no permit left, or has ended.
+    /// Returns false on timeout.
+    pub fn wait_parked(&self, timeout: Duration) -> bool {
+        let mut g = self.lock();
+        let deadline = std::time::Instant::now() + timeout;
+        loop {
+            if g.ended.is_some() || (g.parked && g.permits == 0) {
+                return true;
+            }
+            let now = std::time::Instant::now();
+            if now >= deadline {
+                return false;
+            }
+            g = match self.cv.wait_timeout(g, deadline - now) {
+                Ok((g, _)) => g,
+                Err(p) => p.into_inner().0,
+            };
+        }
+    }
+}
+
+thread_local! {
+    static CTX: RefCell<Option<Arc<SimCtx>>> = const { RefCell::new(None) };
+    static PENDING: RefCell<Option<Arc<SimCtx>>> = const { RefCell::new(None) };
+    static TICKS: Cell<u64> = const { Cell::new(0) };
+    static TICK_BUDGET: Cell<u64> = const { Cell::new(u64::MAX) };
+}
+
+static HANDOFF: Mutex<Vec<(SocketAddr, Arc<SimCtx>)>> = Mutex::new(Vec::new());
+
+fn current() -> Option<Arc<SimCtx>> {
+    CTX.with(|c| c.borrow().clone())
+}
+
+/// True if the calling thread runs under a simulation context.
+pub fn active() -> bool {
+    CTX.with(|c| c.borrow().is_some())
+}
+
+/// The next `ServiceDaemon` created by the calling thread will be simulated with `ctx`.
+pub fn sim_next_daemon(ctx: Arc<SimCtx>) {
+    PENDING.with(|p| *p.borrow_mut() = Some(ctx));
+}
+
+/// Installs (or removes) a context for the calling thread itself, e.g. to give
+/// harness code that creates records a virtual clock.
+pub fn set_thread_ctx(ctx: Option<Arc<SimCtx>>) {
+    CTX.with(|c| *c.borrow_mut() = ctx);
+}
+
+/// Hook in `ServiceDaemon::new_with_port`: park the pending context for the daemon thread.
+pub(crate) fn handoff(signal_addr: SocketAddr) {
+    if let Some(ctx) = PENDING.with(|p| p.borrow_mut().take()) {
+        let mut h = match HANDOFF.lock() {
+            Ok(h) => h,
+            Err(p) => p.into_inner(),
+        };
+        h.push((signal_addr, ctx));
+    }
+}
+
+/// Tells the harness that the daemon thread is gone, also when it panicked.
+pub(crate) struct ExitGuard(Option<Arc<SimCtx>>);
+
+impl Drop for ExitGuard {
+    fn drop(&mut self) {
+        if let Some(ctx) = self.0.take() {
+            CTX.with(|c| *c.borrow_mut() = None);
+            let mut g = ctx.lock();
+            let iter = g.iter;
+            g.ended = Some(Ended {
+                panicked: std::thread::panicking(),
+                iter,
+            });
+            g.parked = false;
+            drop(g);
+            ctx.cv.notify_all();
+        }
+    }
+}
+
+/// Hook at the start of the daemon thread: adopt the context handed over, if any.
+pub(crate) fn adopt(signal_addr: SocketAddr) -> ExitGuard {
+    let ctx = {
+        let mut h = match HANDOFF.lock() {
+            Ok(h) => h,
+            Err(p) => p.into_inner(),
+        };
+        h.iter()
+            .position(|(a, _)| *a == signal_addr)
+            .map(|i| h.swap_remove(i).1)
+    };
+    if let Some(ctx) = &ctx {
+        fastrand::seed(ctx.seed);
+        TICK_BUDGET.with(|b| b.set(ctx.lock().step_budget));
+        CTX.with(|c| *c.borrow_mut() = Some(ctx.clone()));
+    }
+    ExitGuard(ctx)
+}
+
+/// Hook in `current_time_millis`.
+pub(crate) fn virtual_now() -> Option<u64> {
+    CTX.with(|c| c.borrow().as_ref().map(|ctx| ctx.clock.load(Ordering::SeqCst)))
+}
+
+/// Payload used to unwind a simulated daemon thread whose world is gone.
+pub struct WorldGone;
+
+/// Payload used to unwind out of a decode that exceeded its step budget.
+pub struct StepBudgetExceeded;
+
+/// Hook before `poll` in the run loop.
+pub(crate) fn gate(
+    now: u64,
+    earliest_timer: Option<u64>,
+    timeout: Option<Duration>,
+    snapshot: impl FnOnce(u8) -> Snapshot,
+) -> Option<Duration> {
+    let Some(ctx) = current() else {
+        return timeout;
+    };
+    let mut g = ctx.lock();
+    g.iter += 1;
+    g.gate_now = now;
+    g.wakeup = earliest_timer;
+    if g.snapshot_level > 0 {
+        let level = g.snapshot_level;
+        g.snapshot = Some(snapshot(level));
+    }
+    g.parked = true;
+    ctx.cv.notify_all();
+    while g.permits == 0 && !g.kill {
+        g = match ctx.cv.wait(g) {
+            Ok(g) => g,
+            Err(p) => p.into_inner(),
+        };
+    }
+    if g.kill {
+        drop(g);
+        std::panic::resume_unwind(Box::new(WorldGone));
+    }
+    g.permits -= 1;
+    g.parked = false;
+    TICK_BUDGET.with(|b| b.set(g.step_budget));
+    TICKS.with(|t| t.set(0));
+    Some(Duration::ZERO)
+}
+
+/// Hook in the label loop of `read_name`.
+pub(crate) fn tick() {
+    let n = TICKS.with(|t| {
+        let n = t.get() + 1;
+        t.set(n);
+        n
+    });
+    if n > TICK_BUDGET.with(|b| b.get()) {
+        TICKS.with(|t| t.set(0));
+        std::panic::resume_unwind(Box::new(StepBudgetExceeded));
+    }
+}
+
+/// Sets the step budget of the calling thread and resets its step counter.
+pub fn set_step_budget(budget: u64) {
+    TICK_BUDGET.with(|b| b.set(budget));
+    TICKS.with(|t| t.set(0));
+}
+
+/// `read_name` loop steps of the calling thread since the last reset.
+pub fn steps() -> u64 {
+    TICKS.with(|t| t.get())
+}
+
+// ---------------------------------------------------------------------------
+// Sockets
+
+/// Stand-in for `socket_pktinfo::PktInfoUdpSocket`: the real thing unless the
+/// creating thread has a simulation context.
+pub struct PktInfoUdpSocket {
+    real: Option<socket_pktinfo::PktInfoUdpSocket>,
+    sim: Option<Arc<SimCtx>>,
+    domain: Domain,
+    mcast_if_v4: Cell<Option<Ipv4Addr>>,
+    mcast_if_v6: Cell<Option<u32>>,
+}
+
+impl std::fmt::Debug for PktInfoUdpSocket {
+    fn fmt(&self, f: &mut std::fmt::Formatter<'_>) -> std::fmt::Result {
+        write!(f, "PktInfoUdpSocket(sim: {})", self.sim.is_some())
+    }
+}
+
+impl PktInfoUdpSocket {
+    pub fn new(domain: Domain) -> io::Result<Self> {
+        let sim = current();
+        if let Some(ctx) = &sim {
+            let g = ctx.lock();
+            if (domain == Domain::IPV4 && g.no_v4_socket)
+                || (domain == Domain::IPV6 && g.no_v6_socket)
+            {
+                return Err(io::Error::new(
+                    io::ErrorKind::Unsupported,
+                    "address family not supported (simulated)",
+                ));
+            }
+        }
+        let real = if sim.is_some() {
+            None
+        } else {
+            Some(socket_pktinfo::PktInfoUdpSocket::new(domain)?)
+        };
+        Ok(Self {
+            real,
+            sim,
+            domain,
+            mcast_if_v4: Cell::new(None),
+            mcast_if_v6: Cell::new(None),
+        })
+    }
+
+    pub fn domain(&self) -> Domain {
+        self.domain
+    }
+
+    pub fn set_reuse_address(&self, reuse: bool) -> io::Result<()> {
+        match &self.real {
+            Some(s) => s.set_reuse_address(reuse),
+            None => Ok(()),
+        }
+    }
+
+    #[cfg(unix)]
+    pub fn set_reuse_port(&self, reuse: bool) -> io::Result<()> {
+        match &self.real {
+            Some(s) => s.set_reuse_port(reuse),
+            None => Ok(()),
+        }
+    }
+
+    pub fn join_multicast_v4(&self, addr: &Ipv4Addr, interface: &Ipv4Addr) -> io::Result<()> {
+        match (&self.real, &self.sim) {
+            (Some(s), _) => s.join_multicast_v4(addr, interface),
+            (None, Some(ctx)) => {
+                ctx.lock().membership.push(Membership::JoinV4(*interface));
+                Ok(())
+            }
+            _ => Ok(()),
+        }
+    }
+
+    pub fn leave_multicast_v4(&self, addr: &Ipv4Addr, interface: &Ipv4Addr) -> io::Result<()> {
+        match (&self.real, &self.sim) {
+            (Some(s), _) => s.leave_multicast_v4(addr, interface),
+            (None, Some(ctx)) => {
+                ctx.lock().membership.push(Membership::LeaveV4(*interface));
+                Ok(())
+            }
+            _ => Ok(()),
+        }
+    }
+
+    pub fn set_multicast_if_v4(&self, interface: &Ipv4Addr) -> io::Result<()> {
+        match (&self.real, &self.sim) {
+            (Some(s), _) => s.set_multicast_if_v4(interface),
+            (None, Some(ctx)) => {
+                if ctx.lock().bad_mcast_if_v4.contains(interface) {
+                    return Err(io::Error::new(
+                        io::ErrorKind::AddrNotAvailable,
+                        "cannot assign requested address (simulated)",
+                    ));
+                }
+                self.mcast_if_v4.set(Some(*interface));
+                Ok(())
+            }
+            _ => Ok(()),
+        }
+    }
+
+    pub fn set_multicast_loop_v4(&self, loop_v4: bool) -> io::Result<()> {
+        match (&self.real, &self.sim) {
+            (Some(s), _) => s.set_multicast_loop_v4(loop_v4),
+            (None, Some(ctx)) => {
+                ctx.lock().loop_v4 = loop_v4;
+                Ok(())
+            }
+            _ => Ok(()),
+        }
+    }
+
+    pub fn set_multicast_ttl_v4(&self, ttl: u32) -> io::Result<()> {
+        match &self.real {
+            Some(s) => s.set_multicast_ttl_v4(ttl),
+            None => Ok(()),
+        }
+    }
+
+    pub fn join_multicast_v6(&self, addr: &Ipv6Addr, interface: u32) -> io::Result<()> {
+        match (&self.real, &self.sim) {
+            (Some(s), _) => s.join_multicast_v6(addr, interface),
+            (None, Some(ctx)) => {
+                ctx.lock().membership.push(Membership::JoinV6(interface));
+                Ok(())
+            }
+            _ => Ok(()),
+        }
+    }
+
+    pub fn leave_multicast_v6(&self, addr: &Ipv6Addr, interface: u32) -> io::Result<()> {
+        match (&self.real, &self.sim) {
+            (Some(s), _) => s.leave_multicast_v6(addr, interface),
+            (None, Some(ctx)) => {
+                ctx.lock().membership.push(Membership::LeaveV6(interface));
+                Ok(())
+            }
+            _ => Ok(()),
+        }
+    }
+
+    pub fn set_multicast_if_v6(&self, interface: u32) -> io::Result<()> {
+        match (&self.real, &self.sim) {
+            (Some(s), _) => s.set_multicast_if_v6(interface),
+            (None, Some(ctx)) => {
+                if ctx.lock().bad_mcast_if_v6.contains(&interface) {
+                    return Err(io::Error::new(
+                        io::ErrorKind::AddrNotAvailable,
+                        "cannot assign requested address (simulated)",
+                    ));
+                }
+                self.mcast_if_v6.set(Some(interface));
+                Ok(())
+            }
+            _ => Ok(()),
+        }
+    }
+
+    pub fn set_multicast_loop_v6(&self, loop_v6: bool) -> io::Result<()> {
+        match (&self.real, &self.sim) {
+            (Some(s), _) => s.set_multicast_loop_v6(loop_v6),
+            (None, Some(ctx)) => {
+                ctx.lock().loop_v6 = loop_v6;
+                Ok(())
+            }
+            _ => Ok(()),
+        }
+    }
+
+    pub fn set_multicast_hops_v6(&self, hops: u32) -> io::Result<()> {
+        match &self.real {
+            Some(s) => s.set_multicast_hops_v6(hops),
+            None => Ok(()),
+        }
+    }
+
+    pub fn set_nonblocking(&self, nonblocking: bool) -> io::Result<()> {
+        match &self.real {
+            Some(s) => s.set_nonblocking(nonblocking),
+            None => Ok(()),
+        }
+    }
+
+    pub fn bind(&self, addr: &SockAddr) -> io::Result<()> {
+        match &self.real {
+            Some(s) => s.bind(addr),
+            None => Ok(()),
+        }
+    }
+
+    pub fn send_to(&self, buf: &[u8], addr: &SockAddr) -> io::Result<usize> {
+        match (&self.real, &self.sim) {
+            (Some(s), _) => s.send_to(buf, addr),
+            (None, Some(ctx)) => {
+                let Some(dest) = addr.as_socket() else {
+                    return Err(io::Error::new(io::ErrorKind::InvalidInput, "not an IP address"));
+                };
+                let t = ctx.clock.load(Ordering::SeqCst);
+                let mut g = ctx.lock();
+                let iter = g.iter;
+                g.egress.push(Egress {
+                    t,
+                    iter,
+                    v4: self.domain == Domain::IPV4,
+                    dest,
+                    mcast_if_v4: self.mcast_if_v4.get(),
+                    mcast_if_v6: self.mcast_if_v6.get(),
+                    data: buf.to_vec(),
+                });
+                Ok(buf.len())
+            }
+            _ => Ok(buf.len()),
+        }
+    }
+
+    pub fn recv(&self, buf: &mut [u8]) -> io::Result<(usize, PktInfo)> {
+        match (&self.real, &self.sim) {
+            (Some(s), _) => s.recv(buf),
+            (None, Some(ctx)) => {
+                let mut g = ctx.lock();
+                let next = if self.domain == Domain::IPV4 {
+                    g.ingress_v4.pop_front()
+                } else {
+                    g.ingress_v6.pop_front()
+                };
+                let Some(pkt) = next else {
+                    return Err(io::Error::new(io::ErrorKind::WouldBlock, "no datagram queued"));
+                };
+                g.consumed += 1;
+                let n = pkt.data.len().min(buf.len());
+                buf[..n].copy_from_slice(&pkt.data[..n]);
+                Ok((
+                    n,
+                    PktInfo {
+                        if_index: pkt.if_index as u64,
+                        addr_src: pkt.src,
+                        addr_dst: pkt.dst,
+                    },
+                ))
+            }
+            _ => Err(io::Error::new(io::ErrorKind::WouldBlock, "no socket")),
+        }
+    }
+
+    pub fn try_clone_std(&self) -> io::Result<std::net::UdpSocket> {
+        match &self.real {
+            Some(s) => s.try_clone_std(),
+            // Only there to be registered with the poller; nobody sends to it.
+            None => std::net::UdpSocket::bind("127.0.0.1:0"),
+        }
+    }
+}
+
+// ---------------------------------------------------------------------------
+// Interface table and jitter
+
+pub mod if_addrs_shim {
+    /// The scripted interface table under simulation, the host's otherwise.
+    pub fn get_if_addrs() -> std::io::Result<Vec<if_addrs::Interface>> {
+        match super::current() {
+            Some(ctx) => Ok(ctx.lock().ifaces.clone()),
+            None => if_addrs::get_if_addrs(),
+        }
+    }
+}
+
+pub mod fastrand_shim {
+    use std::sync::atomic::Ordering;
+
+    /// A scripted value under simulation if one is queued, `fastrand` otherwise.
+    pub fn u64(range: std::ops::Range<u64>) -> u64 {
+        if let Some(ctx) = super::current() {
+            let t = ctx.clock.load(Ordering::SeqCst);
+            let mut g = ctx.lock();
+            let v = match g.jitter.pop_front() {
+                Some(v) if range.contains(&v) => v,
+                _ => fastrand::u64(range),
+            };
+            g.jitter_log.push((t, v));
+            return v;
+        }
+        fastrand::u64(range)
+    }
+}
+
+// ---------------------------------------------------------------------------
+// State snapshot (read-only)
+
+#[derive(Clone, Debug, Default)]
+pub struct CachedRecord {
+    /// "ptr", "srv", "txt", "addr" or "nsec".
+    pub map: &'static str,
+    pub key: String,
+    pub name: String,
+    pub ty: u16,
+    pub flush: bool,
+    pub ttl: u32,
+    pub created: u64,
+    pub expires: u64,
+    pub refresh: u64,
+    pub if_index: u32,
+    pub rdata: String,
+}
+
+#[derive(Clone, Debug, Default)]
+pub struct CacheMapSummary {
+    pub map: &'static str,
+    pub keys: usize,
+    pub empty_keys: usize,
+    pub records: usize,
+    pub earliest_expire: Option<u64>,
+    pub earliest_refresh: Option<u64>,
+}
+
+#[derive(Clone, Debug, Default)]
+pub struct ProbeSnap {
+    pub if_index: u32,
+    pub name: String,
+    pub start_time: u64,
+    pub next_send: u64,
+    pub records: usize,
+    pub waiting: Vec<String>,
+}
+
+#[derive(Clone, Debug, Default)]
+pub struct Snapshot {
+    pub timers_len: usize,
+    /// The smallest timers (at most 32), ascending.
+    pub timers_min: Vec<u64>,
+    /// (due time, command kind, key)
+    pub retransmissions: Vec<(u64, String, String)>,
+    pub queriers: Vec<String>,
+    pub resolvers: Vec<(String, Option<u64>)>,
+    pub pending_resolves: Vec<String>,
+    pub resolved: Vec<String>,
+    /// (registry key, full name, host name, [(if_index, status)])
+    pub services: Vec<(String, String, String, Vec<(u32, &'static str)>)>,
+    pub probes: Vec<ProbeSnap>,
+    /// (if_index, name, records)
+    pub active: Vec<(u32, String, usize)>,
+    /// (if_index, original, new)
+    pub name_changes: Vec<(u32, String, String)>,
+    /// (if_index, name, addresses)
+    pub intfs: Vec<(u32, String, Vec<IpAddr>)>,
+    pub cache: Vec<CacheMapSummary>,
+    pub cache_subtypes: usize,
+    /// Only at snapshot level 2.
+    pub cache_records: Vec<CachedRecord>,
+    pub monitors: usize,
+    pub ip_check_interval: u64,
+    pub if_selections: usize,
+    pub counters: Vec<(String, i64)>,
+}
+
+// ---------------------------------------------------------------------------
+// Codec facade
+
+pub mod codec {
+    use crate::dns_parser::{
+        verif_view, DnsAddress, DnsIncoming, DnsNSec, DnsOutgoing, DnsPointer, DnsRecordBox,
+        DnsRecordExt, DnsSrv, DnsTxt, InterfaceId, RRType, CLASS_CACHE_FLUSH,
+    };
+    use std::net::{IpAddr, Ipv4Addr, Ipv6Addr};
+
+    #[derive(Clone, Debug, PartialEq, Eq)]
+    pub enum RData {
+        A(Ipv4Addr),
+        AAAA(Ipv6Addr),
+        /// PTR and CNAME
+        Ptr(String),
+        Srv {
+            priority: u16,
+            weight: u16,
+            port: u16,
+            host: String,
+        },
+        Txt(Vec<u8>),
+        HInfo {
+            cpu: String,
+            os: String,
+        },
+        NSec {
+            next: String,
+            bitmap: Vec<u8>,
+        },
+        Other,
+    }
+
+    #[derive(Clone, Debug, PartialEq, Eq)]
+    pub struct RecView {
+        pub name: String,
+        pub ty: u16,
+        /// Without the cache-flush bit.
+        pub class: u16,
+        pub flush: bool,
+        pub ttl: u32,
+        pub rdata: RData,
+    }
+
+    #[derive(Clone, Debug, PartialEq, Eq)]
+    pub struct QView {
+        pub name: String,
+        pub ty: u16,
+        /// Without the top bit.
+        pub class: u16,
+        pub top_bit: bool,
+    }
+
+    #[derive(Clone, Debug, Default)]
+    pub struct MsgView {
+        pub id: u16,
+        pub is_query: bool,
+        pub is_response: bool,
+        pub questions: Vec<QView>,
+        pub answers: Vec<RecView>,
+        pub authorities: Vec<RecView>,
+        pub additionals: Vec<RecView>,
+        /// QDCOUNT, ANCOUNT, NSCOUNT, ARCOUNT as read from the header.
+        pub counts: [u16; 4],
+    }
+
+    pub(crate) fn view(rec: &dyn DnsRecordExt) -> RecView {
+        RecView {
+            name: rec.get_name().to_string(),
+            ty: rec.get_type() as u16,
+            class: rec.get_class(),
+            flush: rec.get_cache_flush(),
+            ttl: rec.get_record().get_ttl(),
+            rdata: verif_view::rdata(rec),
+        }
+    }
+
+    /// Runs the crate's decoder on `data` as if received on interface (`if_name`, `if_index`).
+    pub fn decode(data: &[u8], if_name: &str, if_index: u32) -> Result<MsgView, String> {
+        let intf = InterfaceId {
+            name: if_name.to_string(),
+            index: if_index,
+        };
+        let msg = DnsIncoming::new(data.to_vec(), intf).map_err(|e| e.to_string())?;
+        Ok(MsgView {
+            id: msg.id(),
+            is_query: msg.is_query(),
+            is_response: msg.is_response(),
+            questions: verif_view::questions(&msg),
+            answers: msg.answers().iter().map(|r| view(r.as_ref())).collect(),
+            authorities: msg.authorities().iter().map(|r| view(r.as_ref())).collect(),
+            additionals: msg.additionals().iter().map(|r| view(r.as_ref())).collect(),
+            counts: verif_view::counts(&msg),
+        })
+    }
+
+    /// A record to be added to an outgoing message. `class` may carry the cache-flush bit.
+    #[derive(Clone, Debug)]
+    pub struct RecSpec {
+        pub name: String,
+        pub class: u16,
+        pub ttl: u32,
+        pub rdata: RData,
+    }
+
+    impl RecSpec {
+        pub fn flush(&self) -> bool {
+            self.class & CLASS_CACHE_FLUSH != 0
+        }
+    }
+
+    fn boxed(spec: &RecSpec) -> Option<DnsRecordBox> {
+        let RecSpec {
+            name,
+            class,
+            ttl,
+            rdata,
+        } = spec;
+        Some(match rdata {
+            RData::A(ip) => DnsAddress::new(
+                name,
+                RRType::A,
+                *class,
+                *ttl,
+                IpAddr::V4(*ip),
+                InterfaceId::default(),
+            )
+            .boxed(),
+            RData::AAAA(ip) => DnsAddress::new(
+                name,
+                RRType::AAAA,
+                *class,
+                *ttl,
+                IpAddr::V6(*ip),
+                InterfaceId::default(),
+            )
+            .boxed(),
+            RData::Ptr(alias) => {
+                DnsPointer::new(name, RRType::PTR, *class, *ttl, alias.clone()).boxed()
+            }
+            RData::Srv {
+                priority,
+                weight,
+                port,
+                host,
+            } => DnsSrv::new(name, *class, *ttl, *priority, *weight, *port, host.clone()).boxed(),
+            RData::Txt(text) => DnsTxt::new(name, *class, *ttl, text.clone()).boxed(),
+            RData::HInfo { cpu, os } => verif_view::hinfo(name, *class, *ttl, cpu, os),
+            RData::NSec { next, bitmap } => {
+                DnsNSec::new(name, *class, *ttl, next.clone(), bitmap.clone()).boxed()
+            }
+            RData::Other => return None,
+        })
+    }
+
+    /// Builds messages with the crate's encoder.
+    pub struct OutBuilder(DnsOutgoing);
+
+    impl OutBuilder {
+        pub fn new(flags: u16) -> Self {
+            Self(DnsOutgoing::new(flags))
+        }
+
+        pub fn set_id(&mut self, id: u16) {
+            self.0.set_id(id);
+        }
+
+        /// Returns false if `qtype` is not a type the crate knows.
+        pub fn add_question(&mut self, name: &str, qtype: u16) -> bool {
+            match RRType::from_u16(qtype) {
+                Some(ty) => {
+                    self.0.add_question(name, ty);
+                    true
+                }
+                None => false,
+            }
+        }
+
+        /// `now` = 0 writes the record's TTL, otherwise the remaining TTL at `now`
+        /// (and the record is left out if it has expired by then).
+        pub fn add_answer_at_time(&mut self, spec: &RecSpec, now: u64) -> bool {
+            let RecSpec {
+                name,
+                class,
+                ttl,
+                rdata,
+            } = spec;
+            match rdata {
+                RData::A(ip) => self.0.add_answer_at_time(
+                    DnsAddress::new(
+                        name,
+                        RRType::A,
+                        *class,
+                        *ttl,
+                        IpAddr::V4(*ip),
+                        InterfaceId::default(),
+                    ),
+                    now,
+                ),
+                RData::AAAA(ip) => self.0.add_answer_at_time(
+                    DnsAddress::new(
+                        name,
+                        RRType::AAAA,
+                        *class,
+                        *ttl,
+                        IpAddr::V6(*ip),
+                        InterfaceId::default(),
+                    ),
+                    now,
+                ),
+                RData::Ptr(alias) => self.0.add_answer_at_time(
+                    DnsPointer::new(name, RRType::PTR, *class, *ttl, alias.clone()),
+                    now,
+                ),
+                RData::Srv {
+                    priority,
+                    weight,
+                    port,
+                    host,
+                } => self.0.add_answer_at_time(
+                    DnsSrv::new(name, *class, *ttl, *priority, *weight, *port, host.clone()),
+                    now,
+                ),
+                RData::Txt(text) => self
+                    .0
+                    .add_answer_at_time(DnsTxt::new(name, *class, *ttl, text.clone()), now),
+                RData::NSec { next, bitmap } => self.0.add_answer_at_time(
+                    DnsNSec::new(name, *class, *ttl, next.clone(), bitmap.clone()),
+                    now,
+                ),
+                RData::HInfo { .. } => match boxed(spec) {
+                    Some(b) => {
+                        self.0.add_answer_box(b);
+                        true
+                    }
+                    None => false,
+                },
+                RData::Other => false,
+            }
+        }
+
+        pub fn add_authority(&mut self, spec: &RecSpec) -> bool {
+            match boxed(spec) {
+                Some(b) => {
+                    self.0.add_authority(b);
+                    true
+                }
+                None => false,
+            }
+        }
+
+        pub fn add_additional(&mut self, spec: &RecSpec) -> bool {
+            match boxed(spec) {
+                Some(b) => {
+                    verif_view::add_additional_box(&mut self.0, b);
+                    true
+                }
+                None => false,
+            }
+        }
+
+        pub fn clear_cache_flush_bits(&mut self) {
+            self.0.clear_cache_flush_bits();
+        }
+
+        pub fn to_packets(&self) -> Vec<Vec<u8>> {
+            self.0.to_data_on_wire()
+        }
+    }
+
+    /// The TXT RDATA the daemon would send for `info`.
+    pub fn service_txt_rdata(info: &crate::ServiceInfo) -> Vec<u8> {
+        info.generate_txt()
+    }
+
+    /// Exposes the life-time arithmetic of a record. The record is created at the
+    /// calling thread's current (virtual) time.
+    pub struct RecordClock(DnsRecordBox);
+
+    impl RecordClock {
+        pub fn new(ttl: u32, flush: bool) -> Self {
+            let class = if flush { 1 | CLASS_CACHE_FLUSH } else { 1 };
+            Self(
+                DnsPointer::new(
+                    "_t._udp.local.",
+                    RRType::PTR,
+                    class,
+                    ttl,
+                    "i._t._udp.local.".to_string(),
+                )
+                .boxed(),
+            )
+        }
+        pub fn created(&self) -> u64 {
+            self.0.get_created()
+        }
+        pub fn ttl(&self) -> u32 {
+            self.0.get_record().get_ttl()
+        }
+        pub fn expires(&self) -> u64 {
+            self.0.get_expire()
+        }
+        pub fn refresh_time(&self) -> u64 {
+            self.0.get_record().get_refresh_time()
+        }
+        pub fn is_expired(&self, now: u64) -> bool {
+            self.0.get_record().is_expired(now)
+        }
+        pub fn expires_soon(&self, now: u64) -> bool {
+            self.0.expires_soon(now)
+        }
+        pub fn refresh_due(&self, now: u64) -> bool {
+            self.0.get_record().refresh_due(now)
+        }
+        pub fn halflife_passed(&self, now: u64) -> bool {
+            self.0.get_record().halflife_passed(now)
+        }
+        pub fn refresh_maybe(&mut self, now: u64) -> bool {
+            self.0.get_record_mut().refresh_maybe(now)
+        }
+        pub fn updated_refresh_time(&mut self, now: u64) -> Option<u64> {
+            self.0.updated_refresh_time(now)
+        }
+        pub fn refresh_no_more(&mut self) {
+            self.0.get_record_mut().refresh_no_more();
+        }
+        /// A fresh copy of the record (created now, with `ttl`) arrives.
+        pub fn reset_ttl(&mut self, ttl: u32) {
+            let other = Self::new(ttl, self.0.get_cache_flush());
+            self.0.reset_ttl(other.0.as_ref());
+        }
+        pub fn set_expire(&mut self, at: u64) {
+            self.0.set_expire(at);
+        }
+        pub fn set_expire_sooner(&mut self, at: u64) {
+            self.0.set_expire_sooner(at);
+        }
+        /// The TTL a known-answer copy of this record carries at `now`.
+        pub fn known_answer_ttl(&self, now: u64) -> u32 {
+            let mut copy = self.0.clone();
+            copy.get_record_mut().update_ttl(now);
+            copy.get_record().get_ttl()
+        }
+    }
+}
